@@ -55,14 +55,14 @@ Section OptProof.
   (* wrappers of the shared lemmas *)
   Lemma oenc_ok s ml off :
     Base s -> CInv s -> c_ip s <= mflimit -> match_ok vrd lo (c_ip s) off ml -> c_ip s + ml <= matchlimit ->
-    TB (c_tabs s) (iend + 1) ->
+    TB (c_tabs s) iend ->
     match c_encode vrd lim s0 srcSize s ml off oes with
     | inl s' => Base s' /\ CInv s' /\ c_ip s' = c_ip s + ml /\ c_anchor s' = c_ip s + ml /\ c_tabs s' = c_tabs s
     | inr r => ROK r
     end.
   Proof. intros. apply (enc_ok vrd lim prefixIdx dictIdx s0 srcSize maxOut); assumption. Qed.
 
-  Lemma oll_ok s : Base s -> CInv s -> TB (c_tabs s) (iend + 1) ->
+  Lemma oll_ok s : Base s -> CInv s -> TB (c_tabs s) iend ->
     ROK (c_last_literals vrd lim s0 srcSize s maxOut).
   Proof. intros. apply (ll_ok vrd lim prefixIdx dictIdx s0 srcSize maxOut); assumption. Qed.
 
@@ -323,7 +323,7 @@ Section OptProof.
   Qed.
 
   Lemma emit_spec ip0 lmp o : ip0 + lmp <= iend -> forall fuel s rPos,
-    Good o ip0 lmp rPos -> 0 <= rPos -> c_ip s = ip0 + rPos -> Base s -> CInv s -> TB (c_tabs s) (iend + 1) ->
+    Good o ip0 lmp rPos -> 0 <= rPos -> c_ip s = ip0 + rPos -> Base s -> CInv s -> TB (c_tabs s) iend ->
     Z.max 0 (lmp - rPos) < Z.of_nat fuel ->
     match emit vrd lim s0 srcSize fuel o s rPos lmp oes with
     | None => False
@@ -354,7 +354,7 @@ Section OptProof.
   (* everything from `encode:` to the end of the loop body *)
   Lemma opt_encode_spec ip0 o s cur lmp bm bo :
     0 <= cur < lmp -> RG o ip0 0 (cur + 1) -> SegOK ip0 cur bm bo -> lmp <= cur + bm -> ip0 + lmp <= iend ->
-    c_ip s = ip0 -> Base s -> CInv s -> TB (c_tabs s) (iend + 1) ->
+    c_ip s = ip0 -> Base s -> CInv s -> TB (c_tabs s) iend ->
     match opt_encode vrd lim s0 srcSize o s cur lmp bm bo oes with
     | None => False
     | Some (o', inl s') => Base s' /\ CInv s' /\ c_tabs s' = c_tabs s /\ ip0 + lmp <= c_ip s'
@@ -387,7 +387,7 @@ Section OptProof.
     { split; [apply Base_with_ip; [exact HB | cbn [with_tabs c_anchor]; lia]|]. split; [exact HC|].
       cbn [with_ip with_tabs c_tabs c_ip]. split; [eapply TB_mono; eauto; lia | lia]. }
     destruct Hfm as [Hz|(F4 & Fm & Fl)]; [lia|].
-    assert (HTe : TB t (iend + 1)) by (eapply TB_mono; eauto; lia).
+    assert (HTe : TB t iend) by (eapply TB_mono; eauto; lia).
     destruct (hm_len fm >? suff) eqn:Es.
     { pose proof (oenc_ok (with_tabs s t) (hm_len fm) (hm_off fm) HB HC Hip Fm Fl HTe) as HE.
       destruct (c_encode vrd lim s0 srcSize (with_tabs s t) (hm_len fm) (hm_off fm) oes) as [s'|r]; [|exact HE].
@@ -446,7 +446,7 @@ Section OptProof.
       destruct (opt_step vrd prefixIdx dictIdx lim s0 srcSize nb suff0 full fav s o oes) as [[s' o']|r]; [|exact HS].
       destruct HS as (S1 & S2 & S3 & S4). apply IH; try assumption. lia.
     - rewrite (oes_restore lim maxOut). apply oll_ok; [exact HB | exact HC|].
-      destruct HB as (_ & _ & B3 & _). eapply TB_mono; eauto. lia.
+      destruct HB as (_ & _ & B3 & _). eapply TB_mono; eauto; lia.
   Qed.
 
   (* LZ4HC_compress_optimal: for any tables whose hash entries are indices below the block and whose chain entries are
